@@ -54,17 +54,17 @@ check("C10", "exploration",
       "DESIGN.md §2.5, §3 C10", engine="engine/sched + engine/shim + tools/overlaygen")
 check("C11", "fault_enumeration",
       "fault enumeration: a counting context fires at every poll k in [0,P] of every input x entry point, with both error kinds",
-      "For each input (one per poll-site context, plus long token lists; thorough: every expression hole) and each of gosqlx.ParseWithContext, Tokenizer.TokenizeContext, Parser.ParseContext the number of polls P is measured, then the context fires at every k with Canceled and DeadlineExceeded: no value, errors.Is(err, ctxErr), <=2 further polls; a never-firing context gives the context-free result; the instance afterwards answers the C08 probes like a new one.",
+      "For each input (one per poll-site context, every clause option of the model grammar, long token lists; thorough: every expression hole) and each of gosqlx.ParseWithContext, Tokenizer.TokenizeContext, Parser.ParseContext the number of polls P is measured, then the context fires at every k with Canceled and DeadlineExceeded: no value, errors.Is(err, ctxErr), <=2 further polls; a never-firing context gives the context-free result; the instance afterwards answers the C08 probes like a new one.",
       "Trusted: the library only polls Err() (checked); CountCtx keeps Done()/Deadline() consistent.",
       "DESIGN.md §2.6, §3 C11", engine="engine/common + checks/c08/probe")
 check("C12", "exploration",
       "bounded exhaustive enumeration of semicolon-separated scripts over valid and corrupted segments and of token soup; differential oracle against strict parsing",
-      "All scripts of <=3 segments over 6 valid statements + 14 corruptions, <=5/6 over a 5-segment pool, with/without trailing semicolon: recovery terminates, reports an error iff strict parsing fails, returns exactly the strict trees of the well-formed segments in order, one error per malformed segment naming a token inside it; all lexeme sequences of length <=3/4 over 24 lexemes for termination and the iff clause.",
+      "All scripts of <=2 segments over 9 valid statements and all their failing corruptions, <=3 over the valid statements + 14 corruptions, <=5/6 over a 5-segment pool, with/without trailing semicolon, and every rejected proper prefix of every clause-option / DML / DDL statement of the model grammar before three kinds of follower and between neighbours: recovery terminates, reports an error iff strict parsing fails, returns exactly the strict trees of the well-formed segments in order, one error per malformed segment naming a token inside it (by token index and by reported column); all lexeme sequences of length <=3/4 over 24 lexemes for termination and the iff clause.",
       "Trusted: a segment is well-formed iff gosqlx.Parse accepts it alone; token counting self-checked at run time.",
       "DESIGN.md §3 C12")
 check("C14", "exploration",
       "exhaustive (node type x node-holding field) obligations generated from the current source + bounded exhaustive tree enumeration; reflection reachability vs ast.Inspect",
-      "Every struct type of pkg/sql/ast with a Children method (listed from the source at check time) x every field that can hold a node, populated alone with tagged content, plus every tree of the model grammar and every accepted corpus file: the multiset of nodes ast.Inspect yields must equal the multiset reachable by reflection through exported fields.",
+      "Every struct type of pkg/sql/ast with a Children method (listed from the source at check time) x every field that can hold a node, populated alone with tagged content, plus every tree of the model grammar, left-deep operator / UNION chains of every length 2..40, around 64..1024 and up to 1200 operands, and every accepted corpus file: the multiset of nodes ast.Inspect yields must equal the multiset reachable by reflection through exported fields.",
       "Trusted: node identity by type + canonical dump; all-zero nodes ignored on both sides.",
       "DESIGN.md §3 C14", engine="engine/common + tools/astreg + sqlgen")
 check("C15", "exploration",
@@ -91,17 +91,17 @@ check("C01", "exploration",
       "DESIGN.md §2.1, §3 C01", engine="engine/common + lexgen + sqlgen")
 check("C13", "exploration",
       "bounded exhaustive enumeration of rejected inputs (token corruptions, lexical fragment strings, limit violations) through 10 failing-capable entry points; structural oracle on the returned error",
-      "Every rejected input must expose an *errors.Error through errors.As with a documented code of the family of the stage that rejected it (tokenizer E1xxx / parser E2xxx, dedicated limit codes), a non-empty message, a location inside the input when set, and identical (code, message, location) on a second call.",
+      "Every rejected input must expose an *errors.Error through errors.As with a documented code of the family of the stage that rejected it (tokenizer E1xxx / parser E2xxx, dedicated limit codes), a non-empty message, a location inside the input when set, identical (code, message, location) on a second call, and the same answers when the rejected input is followed - on one Parser object and inside one recovery call - by a statement exactly at the nesting limit and by itself again.",
       "Trusted: stage = whether tokenizer.Tokenize alone rejects the input.",
       "DESIGN.md §3 C13", engine="engine/common + lexgen + sqlgen")
 check("C16", "exploration",
       "bounded exhaustive enumeration payload x position x wrapper x layout x threshold x API; per-API canonical-answer oracle",
-      "10 documented payloads in every expression hole of the model grammar (conditions also as AND/OR/NOT operands, in parentheses, nested three levels, next to sibling clauses, in set operations and scripts; thorough: inside EXISTS sub-queries) under 3 layouts, 4 severity thresholds and 3 scanner APIs: documented class/severity in the canonical position, superset of the canonical findings everywhere else, layout invariance, threshold = filter, counters = list, tree unchanged, reused scanner = new scanner.",
+      "14 payloads (10 documented ones + 4 nestings of one call in another's arguments) in every expression hole of the model grammar (conditions also as AND/OR/NOT operands, in parentheses, nested three levels, next to sibling clauses, in set operations and scripts; thorough: inside EXISTS sub-queries) under 3 layouts, 4 severity thresholds and 3 scanner APIs: documented class/severity in the canonical position, superset of the canonical findings everywhere else, layout invariance, threshold = filter, counters = list, tree unchanged, reused scanner = new scanner.",
       "Trusted: closure is judged per API against that API's own canonical answer.",
       "DESIGN.md §3 C16")
 check("C18", "model_checking",
       "explicit-state search over all framed JSON-RPC message histories up to depth 3/4 (+1 behind didOpen) on a fresh real server, reference document model (UTF-16 clamping arithmetic) in lock-step; exhaustive single/paired edit ranges on small documents",
-      "49-message alphabet (lifecycle, sync with in-range / past-end / inverted / negative ranges over ASCII and non-ASCII text, every request kind at valid / far / negative positions, malformed bodies and headers): the server never dies, output frames are exact, one response per request id and none for notifications, the document mirror equals the model after every in-contract history, last diagnostics carry the model's version / count / line.",
+      "55-message alphabet (lifecycle, reserved `$/` and unknown method names as requests and as notifications, sync with in-range / past-end / inverted / negative ranges over ASCII and non-ASCII text, every request kind at valid / far / negative positions, malformed bodies and headers): the server never dies, output frames are exact, one response per request id and none for notifications, the document mirror equals the model after every in-contract history, last diagnostics carry the model's version / count / line.",
       "Trusted: the reference position model; each history runs far below the rate limiter window.",
       "DESIGN.md §2.4, §3 C18", engine="engine/common (history enumeration)")
 
@@ -111,6 +111,12 @@ check("C02", "exploration",
       "Static: strongly connected components of the typed call graph of pkg/sql/parser and pkg/sql/tokenizer with guarded edges removed (guard = depth++ / limit test / return, recognised per edge). Dynamic: 3829 nesting families (wrapper production x holding clause) at every depth 1..130 and 200, 500, 1000 (thorough: 10^4, 10^5 and the largest depth the limits allow), stack growth measured through a probing context; inputs of MaxInputSize and MaxTokens -1/0/+1 in several shapes through 3 entry points.",
       "Trusted: go/types call graph (direct calls + intra-library dynamic edges of callgraph -algo=cha in thorough); guard recognition is syntactic; a family is recursive iff its measured stack grows with depth.",
       "DESIGN.md §2.7, §3 C02", engine="engine/cgraph + engine/common")
+
+check("C20", "exploration",
+      "exhaustive enumeration of (input family x entry point) with a deterministic cost measure (basic-block execution counts of the library and the standard packages it leans on + allocated bytes, read from -cover counters of a build of the current tree; no clock) over a doubling ladder of sizes; growth-exponent oracle with culprit localisation",
+      "58 (thorough 59) input families (long lists, chains, nestings, long lexemes, many lines / comments / statements, repeated findings) x 14 entry points (Tokenize, Parse, ParseWithRecovery, Validate, AST.SQL, AST.Format readable/compact, tree scan, text scans, LintString, Extract*, gosqlx.Format, formatter.FormatString) at n = 8..64 step 2 and 2^4..2^14 (thorough: up to 10 MiB / 1M tokens for tokenize and parse): total block count, every single block and allocated bytes must not grow by more than 2^1.5 per doubling over two consecutive doublings once above 10^5; the signature names the function holding the steepest block.",
+      "Trusted: block counts as a proxy for time (cost hidden inside assembly routines of the standard library is invisible: documented mutant M4); a calibration loop of known length is read back exactly at every start; families are hand-written.",
+      "DESIGN.md §2.8, §3 C20", engine="engine/common + checks/c20 (cover-counter decoder)")
 
 NOT_BUILT = "check not built yet (work in progress; see DESIGN.md for the planned model-checking design)"
 man = dict(
